@@ -125,7 +125,7 @@ func (c *c09Worker) Run(path []SOp) (bfs.Outcome, error) {
 	// Differential: a batch with distinct keys gives the verdicts of its entries submitted one at a time (every order).
 	wellFormed := true
 	for _, e := range op.Ents {
-		wellFormed = wellFormed && model.WellFormedAtt(e.S, e.T)
+		wellFormed = wellFormed && model.WellFormedAtt(e.S, e.T) && (e.T > e.S || (e.S == 0 && e.T == 0))
 	}
 	if op.Kind == "atts" && distinct && wellFormed {
 		batchVerdict := make([]bool, len(op.Ents))
